@@ -1,7 +1,7 @@
 import FeatherModel.Spec.ClassEncode
 import FeatherModel.Lemmas.ClassReadBytes
 
-/-! C01 lemmas: annotations and element values are read back from their encoding, at any nesting depth. -/
+/-! C01 lemmas: annotations and element values are read back from their encoding, at any nesting depth the reader admits. -/
 
 namespace ClassRead
 open Outcome Spec
@@ -44,8 +44,8 @@ theorem readConstElem_enc (p : Pool) (tag cp : Nat) (v : Int) (hcp : cp < 65536)
   · cases h : p.getInteger cp <;> simp [h] at hv ⊢; exact hv
 
 mutual
-theorem readElemVal_enc (p : Pool) (e : SElem) (he : e.Legal p) (fuel : Nat) (hf : e.need ≤ fuel) (r : Bytes) :
-    readElemVal p fuel (e.encode ++ r) = ok (e.fact, r) := by
+theorem readElemVal_enc (p : Pool) (e : SElem) (he : e.Legal p) (fuel : Nat) (hf : e.need ≤ fuel) (d : Nat)
+    (hd : d + e.nest ≤ 255) (r : Bytes) : readElemVal p fuel d (e.encode ++ r) = ok (e.fact, r) := by
   cases fuel with
   | zero => cases e <;> simp [SElem.need] at hf
   | succ fuel =>
@@ -69,16 +69,20 @@ theorem readElemVal_enc (p : Pool) (e : SElem) (he : e.Legal p) (fuel : Nat) (hf
         simp only [SElem.Legal, SAnno.Legal] at he
         obtain ⟨h1, h2, h3, h4⟩ := he
         simp only [SElem.need, SAnno.need] at hf
-        have := readNamedPairs_enc p ps h4 fuel (by omega) r
-        simp [readElemVal, SElem.encode, SAnno.encode, u8, isConstTag, u16_be16 _ h1, h2, u16_be16 _ h3, this, SElem.fact, SAnno.fact]
+        simp only [SElem.nest, SAnno.nest] at hd
+        have := readNamedPairs_enc p ps h4 fuel (by omega) (d + 1) (by omega) r
+        have hdd : ¬ d + 1 > maxElemDepth := by unfold maxElemDepth; omega
+        simp [readElemVal, SElem.encode, SAnno.encode, u8, isConstTag, u16_be16 _ h1, h2, u16_be16 _ h3, this, SElem.fact, SAnno.fact, hdd]
     | arr vs =>
       simp only [SElem.Legal] at he
       obtain ⟨h1, h2⟩ := he
       simp only [SElem.need] at hf
-      have := readUnnamed_enc p vs h2 fuel (by omega) r
-      simp [readElemVal, SElem.encode, u8, isConstTag, u16_be16 _ h1, this, SElem.fact]
-theorem readNamedPairs_enc (p : Pool) (ps : List SPair) (hps : pairsLegal p ps) (fuel : Nat) (hf : needPairs ps ≤ fuel) (r : Bytes) :
-    readNamedPairs p fuel ps.length (encPairs ps ++ r) = ok (pairFacts ps, r) := by
+      simp only [SElem.nest] at hd
+      have := readUnnamed_enc p vs h2 fuel (by omega) (d + 1) (by omega) r
+      have hdd : ¬ d + 1 > maxElemDepth := by unfold maxElemDepth; omega
+      simp [readElemVal, SElem.encode, u8, isConstTag, u16_be16 _ h1, this, SElem.fact, hdd]
+theorem readNamedPairs_enc (p : Pool) (ps : List SPair) (hps : pairsLegal p ps) (fuel : Nat) (hf : needPairs ps ≤ fuel) (d : Nat)
+    (hd : d + pairsNest ps ≤ 255) (r : Bytes) : readNamedPairs p fuel d ps.length (encPairs ps ++ r) = ok (pairFacts ps, r) := by
   cases fuel with
   | zero => cases ps <;> simp [needPairs] at hf
   | succ fuel =>
@@ -90,11 +94,12 @@ theorem readNamedPairs_enc (p : Pool) (ps : List SPair) (hps : pairsLegal p ps) 
         simp only [pairsLegal, SPair.Legal] at hps
         obtain ⟨⟨h1, h2, h3⟩, h4⟩ := hps
         simp only [needPairs, SPair.need] at hf
-        have e1 := readElemVal_enc p v h3 fuel (by omega) (encPairs qs ++ r)
-        have e2 := readNamedPairs_enc p qs h4 fuel (by omega) r
+        simp only [pairsNest, SPair.nest] at hd
+        have e1 := readElemVal_enc p v h3 fuel (by omega) d (by omega) (encPairs qs ++ r)
+        have e2 := readNamedPairs_enc p qs h4 fuel (by omega) d (by omega) r
         simp [readNamedPairs, encPairs, SPair.encode, List.append_assoc, u16_be16 _ h1, h2, e1, e2, pairFacts, SPair.fact]
-theorem readUnnamed_enc (p : Pool) (vs : List SElem) (hvs : elemsLegal p vs) (fuel : Nat) (hf : needElems vs ≤ fuel) (r : Bytes) :
-    readUnnamed p fuel vs.length (encElems vs ++ r) = ok (elemFacts vs, r) := by
+theorem readUnnamed_enc (p : Pool) (vs : List SElem) (hvs : elemsLegal p vs) (fuel : Nat) (hf : needElems vs ≤ fuel) (d : Nat)
+    (hd : d + elemsNest vs ≤ 255) (r : Bytes) : readUnnamed p fuel d vs.length (encElems vs ++ r) = ok (elemFacts vs, r) := by
   cases fuel with
   | zero => cases vs <;> simp [needElems] at hf
   | succ fuel =>
@@ -103,8 +108,9 @@ theorem readUnnamed_enc (p : Pool) (vs : List SElem) (hvs : elemsLegal p vs) (fu
     | cons v ws =>
       simp only [elemsLegal] at hvs
       simp only [needElems] at hf
-      have e1 := readElemVal_enc p v hvs.1 fuel (by omega) (encElems ws ++ r)
-      have e2 := readUnnamed_enc p ws hvs.2 fuel (by omega) r
+      simp only [elemsNest] at hd
+      have e1 := readElemVal_enc p v hvs.1 fuel (by omega) d (by omega) (encElems ws ++ r)
+      have e2 := readUnnamed_enc p ws hvs.2 fuel (by omega) d (by omega) r
       simp [readUnnamed, encElems, List.append_assoc, e1, e2, elemFacts]
 end
 
@@ -157,25 +163,111 @@ theorem need_le_pairs (ps : List SPair) : needPairs ps ≤ 1 + (encPairs ps).len
 end
 
 /-- `readAnnotation` (fuel `2 * bytes + 2` is always enough) -/
-theorem readAnnotation_enc (p : Pool) (a : SAnno) (ha : a.Legal p) (r : Bytes) :
+theorem readAnnotation_enc (p : Pool) (a : SAnno) (ha : a.Ok p) (r : Bytes) :
     readAnnotation p (a.encode ++ r) = ok (a.fact, r) := by
   cases a with
   | mk tcp ty ps =>
-    simp only [SAnno.Legal] at ha
-    obtain ⟨h1, h2, h3, h4⟩ := ha
+    simp only [SAnno.Ok, SAnno.Legal, SAnno.nest] at ha
+    obtain ⟨⟨h1, h2, h3, h4⟩, hnest⟩ := ha
     have hn := need_le_pairs ps
-    have := readNamedPairs_enc p ps h4 (annoFuel (encPairs ps ++ r)) (by simp [annoFuel]; omega) r
+    have := readNamedPairs_enc p ps h4 (annoFuel (encPairs ps ++ r)) (by simp [annoFuel]; omega) 0 (by omega) r
     simp [readAnnotation, SAnno.encode, List.append_assoc, u16_be16 _ h1, h2, u16_be16 _ h3, this, SAnno.fact]
 
-theorem readAnnotations_enc (p : Pool) (as : List SAnno) (hn : as.length < 65536) (has : ∀ a ∈ as, a.Legal p) (r : Bytes) :
+/-! ### the depth limit: legal element values nested deeper than 255 levels are rejected -/
+
+mutual
+theorem readElemVal_deep (p : Pool) (e : SElem) (he : e.Legal p) (fuel : Nat) (hf : e.need ≤ fuel) (d : Nat) (hd0 : d ≤ 255)
+    (hd : 255 < d + e.nest) (r : Bytes) : readElemVal p fuel d (e.encode ++ r) = err := by
+  cases fuel with
+  | zero => simp [readElemVal]
+  | succ fuel =>
+    cases e with
+    | const tag cp v => simp only [SElem.nest] at hd; omega
+    | str cp s => simp only [SElem.nest] at hd; omega
+    | enum tcp ty ncp name => simp only [SElem.nest] at hd; omega
+    | cls cp d' => simp only [SElem.nest] at hd; omega
+    | anno a =>
+      cases a with
+      | mk tcp ty ps =>
+        simp only [SElem.Legal, SAnno.Legal] at he
+        obtain ⟨h1, h2, h3, h4⟩ := he
+        simp only [SElem.need, SAnno.need] at hf
+        simp only [SElem.nest, SAnno.nest] at hd
+        by_cases hdd : d + 1 > maxElemDepth
+        · simp [readElemVal, SElem.encode, SAnno.encode, u8, isConstTag, u16_be16 _ h1, h2, hdd]
+        · have hle : d + 1 ≤ 255 := by unfold maxElemDepth at hdd; omega
+          have := readNamedPairs_deep p ps h4 fuel (by omega) (d + 1) hle (by omega) r
+          simp [readElemVal, SElem.encode, SAnno.encode, u8, isConstTag, u16_be16 _ h1, h2, u16_be16 _ h3, this, hdd]
+    | arr vs =>
+      simp only [SElem.Legal] at he
+      obtain ⟨h1, h2⟩ := he
+      simp only [SElem.need] at hf
+      simp only [SElem.nest] at hd
+      by_cases hdd : d + 1 > maxElemDepth
+      · simp [readElemVal, SElem.encode, u8, isConstTag, hdd]
+      · have hle : d + 1 ≤ 255 := by unfold maxElemDepth at hdd; omega
+        have := readUnnamed_deep p vs h2 fuel (by omega) (d + 1) hle (by omega) r
+        simp [readElemVal, SElem.encode, u8, isConstTag, u16_be16 _ h1, this, hdd]
+theorem readNamedPairs_deep (p : Pool) (ps : List SPair) (hps : pairsLegal p ps) (fuel : Nat) (hf : needPairs ps ≤ fuel) (d : Nat)
+    (hd0 : d ≤ 255) (hd : 255 < d + pairsNest ps) (r : Bytes) : readNamedPairs p fuel d ps.length (encPairs ps ++ r) = err := by
+  cases fuel with
+  | zero => simp [readNamedPairs]
+  | succ fuel =>
+    cases ps with
+    | nil => simp only [pairsNest] at hd; omega
+    | cons q qs =>
+      cases q with
+      | mk ncp name v =>
+        simp only [pairsLegal, SPair.Legal] at hps
+        obtain ⟨⟨h1, h2, h3⟩, h4⟩ := hps
+        simp only [needPairs, SPair.need] at hf
+        simp only [pairsNest, SPair.nest] at hd
+        by_cases hv : d + v.nest ≤ 255
+        · have e1 := readElemVal_enc p v h3 fuel (by omega) d hv (encPairs qs ++ r)
+          have e2 := readNamedPairs_deep p qs h4 fuel (by omega) d hd0 (by omega) r
+          simp [readNamedPairs, encPairs, SPair.encode, List.append_assoc, u16_be16 _ h1, h2, e1, e2]
+        · have e1 := readElemVal_deep p v h3 fuel (by omega) d hd0 (by omega) (encPairs qs ++ r)
+          simp [readNamedPairs, encPairs, SPair.encode, List.append_assoc, u16_be16 _ h1, h2, e1]
+theorem readUnnamed_deep (p : Pool) (vs : List SElem) (hvs : elemsLegal p vs) (fuel : Nat) (hf : needElems vs ≤ fuel) (d : Nat)
+    (hd0 : d ≤ 255) (hd : 255 < d + elemsNest vs) (r : Bytes) : readUnnamed p fuel d vs.length (encElems vs ++ r) = err := by
+  cases fuel with
+  | zero => simp [readUnnamed]
+  | succ fuel =>
+    cases vs with
+    | nil => simp only [elemsNest] at hd; omega
+    | cons v ws =>
+      simp only [elemsLegal] at hvs
+      simp only [needElems] at hf
+      simp only [elemsNest] at hd
+      by_cases hv : d + v.nest ≤ 255
+      · have e1 := readElemVal_enc p v hvs.1 fuel (by omega) d hv (encElems ws ++ r)
+        have e2 := readUnnamed_deep p ws hvs.2 fuel (by omega) d hd0 (by omega) r
+        simp [readUnnamed, encElems, List.append_assoc, e1, e2]
+      · have e1 := readElemVal_deep p v hvs.1 fuel (by omega) d hd0 (by omega) (encElems ws ++ r)
+        simp [readUnnamed, encElems, List.append_assoc, e1]
+end
+
+/-- a legal annotation whose element values nest deeper than 255 levels is rejected -/
+theorem readAnnotation_deep (p : Pool) (a : SAnno) (ha : a.Legal p) (hn : 255 < a.nest) (r : Bytes) :
+    readAnnotation p (a.encode ++ r) = err := by
+  cases a with
+  | mk tcp ty ps =>
+    simp only [SAnno.Legal] at ha
+    simp only [SAnno.nest] at hn
+    obtain ⟨h1, h2, h3, h4⟩ := ha
+    have hn' := need_le_pairs ps
+    have := readNamedPairs_deep p ps h4 (annoFuel (encPairs ps ++ r)) (by simp [annoFuel]; omega) 0 (by omega) (by omega) r
+    simp [readAnnotation, SAnno.encode, List.append_assoc, u16_be16 _ h1, h2, u16_be16 _ h3, this]
+
+theorem readAnnotations_enc (p : Pool) (as : List SAnno) (hn : as.length < 65536) (has : ∀ a ∈ as, a.Ok p) (r : Bytes) :
     readAnnotations p (encAnnos as ++ r) = ok (as.map SAnno.fact, r) := by
   have := readVec16_flatMap (readAnnotation p) SAnno.encode SAnno.fact as hn (fun a ha r => readAnnotation_enc p a (has a ha) r) r
   simpa [readAnnotations, encAnnos, List.append_assoc] using this
 
-theorem readAnnotationDefault_enc (p : Pool) (e : SElem) (he : e.Legal p) (r : Bytes) :
+theorem readAnnotationDefault_enc (p : Pool) (e : SElem) (he : e.Ok p) (r : Bytes) :
     readAnnotationDefault p (e.encode ++ r) = ok (e.fact, r) := by
   have hn := need_le_elem e
-  exact readElemVal_enc p e he (annoFuel (e.encode ++ r)) (by simp [annoFuel]; omega) r
+  exact readElemVal_enc p e he.1 (annoFuel (e.encode ++ r)) (by simp [annoFuel]; omega) 0 (by have := he.2; omega) r
 
 end ClassRead
 
